@@ -486,6 +486,8 @@ func (fi *FileInfo) getTrailer() (Dict, error) {
 				if ok && stm.Dict["Root"] != nil {
 					return stm.Dict, nil
 				}
+			} else if isSourceFailure(err) {
+				return nil, err
 			}
 		}
 
@@ -493,12 +495,21 @@ func (fi *FileInfo) getTrailer() (Dict, error) {
 		trailer, err := fi.readTrailer(sect)
 		if err == nil {
 			return trailer, nil
+		} else if sect.TrailerPos != 0 && isSourceFailure(err) {
+			return nil, err
 		}
 
 		// TODO(voss): method 3: Try to collect all the pieces to build
 		// our own trailer dictionary.
 	}
 	return nil, errors.New("no trailer found")
+}
+
+// isSourceFailure reports whether err stems from the byte source rather than
+// from the contents of the file.  Running into the end of the data is a
+// property of the (truncated) file.
+func isSourceFailure(err error) bool {
+	return IsReadError(err) && !errors.Is(err, io.EOF) && !errors.Is(err, io.ErrUnexpectedEOF)
 }
 
 func (fi *FileInfo) readTrailer(sect *FileSection) (Dict, error) {
